@@ -23,6 +23,11 @@ def run(ctx):
     known = histcheck.load_known("C20")
     n = 1400 if ctx.quick() else 40000
     total, failures, dist = cli_fuzz.run(stg, ctx.rng, n, tag="c20f")
+    n_rev, f_rev = cli_fuzz.run_rev_probes(stg, ("stack",) if ctx.quick() else ("stack", "moved", "empty"),
+                                           cli_fuzz.QUICK_REVS if ctx.quick() else None)
+    total += n_rev
+    failures += f_rev
+    ctx.coverage["revision_probes"] = n_rev
     seen = set()
     for f in failures:
         k = histcheck.match_known(known, {"cmd": {"c": f["argv"][0]}, "why": "exit status 'panic'" if f["kind"] == "panic"
